@@ -1,7 +1,7 @@
 ---------------------------- MODULE Trace_Naming ----------------------------
 (* Code -> spec: results of the naming functions and of the key -> field mapping  *)
 (* for one proto identifier, judged against Naming.tla.                            *)
-EXTENDS Naming, KnownFindings, Json, IOUtils, TLC, TLCExt
+EXTENDS Casing, KnownFindings, Json, IOUtils, TLC, TLCExt, Integers
 
 Shard == JsonDeserialize(IOEnv.TRACE_FILE)
 Events == Shard.events
@@ -22,9 +22,22 @@ Clause(e) ==
   ELSE IF ~e.back_camel THEN <<"camel_key_dropped_by_from_dict", IF KF_C19_CamelKeyLosesWordBoundary(e.field) THEN "KF_C19_CamelKeyLosesWordBoundary" ELSE "">>
   ELSE <<"ok", "">>
 
+\* where the code's outputs differ from the faithful model spec/Casing.tla (reported as model drift, never as a violation)
+Drift(e) ==
+  IF e.res # "ok" THEN <<>>
+  ELSE LET f == FieldName(e.x, Kws) IN
+       (IF e.field # f THEN <<"field">> ELSE <<>>) \o
+       (IF e.method # MethodName(e.x, Kws) THEN <<"method">> ELSE <<>>) \o
+       (IF e.class # ClassName(e.x, Kws) THEN <<"class">> ELSE <<>>) \o
+       (IF e.enum_member # EnumMemberName(e.x, Shard.hdr.enum_name, Kws) THEN <<"enum_member">> ELSE <<>>) \o
+       (IF e.ksnake # <<-1>> /\ e.ksnake # KeyOf(e.field, "snake") THEN <<"snake_key">> ELSE <<>>) \o
+       (IF e.kcamel # <<-1>> /\ e.kcamel # KeyOf(e.field, "camel") THEN <<"camel_key">> ELSE <<>>) \o
+       (IF e.kcamel # <<-1>> /\ e.back_camel # (FieldOfKey(e.kcamel, Kws) = e.field) THEN <<"camel_key_back">> ELSE <<>>)
+
 Init == i = 1
 Next == /\ i <= Len(Events)
         /\ i' = i + 1
         /\ LET c == Clause(Events[i]) IN PrintT(<<"V", Events[i].id, c[1], c[2], "">>)
+        /\ LET d == Drift(Events[i]) IN d = <<>> \/ PrintT(<<"D", Events[i].id, d>>)
 TraceSpec == Init /\ [][Next]_i
 =============================================================================
